@@ -16,11 +16,15 @@ RULE = ('histories on every SCREEN mode of every adapter configuration (cga, ega
         'time; a case is one operation of a history; non-trivial = distinct (mode, op kind, address, length)')
 EXPLANATION = ('theorems (PcbV.Props.C34): for every graphics mode of the regenerated mode table, all page counts, addresses '
                'and lengths the repaired _walk_memory yields exactly the units whose _get_coords are on screen, each with its '
-               'own coordinates (walk_is_bytewise), every run stays inside its scan line, block read/write = bytewise '
-               'read/write, pack/unpack round trips, POKE-then-PEEK and frame properties; counterexamples for the walk '
-               'as it was (D11 and two-bank modes), the old Tandy-6 odd-address reader and the old text mapper. '
-               'Correspondence: every operation result and the touched pixel rows of real Sessions against the compiled model. '
-               'Oracle: documented memory layout of each mode applied in the pixel->address direction to the page buffers.')
+               'own coordinates (walk_is_bytewise, incl. the factor-2 plane walks of Tandy SCREEN 6), every run stays inside '
+               'its scan line; block read/write = bytewise read/write, unmapped bytes read 0 and a POKE changes only the '
+               'covered content in EVERY mode of the table (text, CGA-packed, EGA-planar and Tandy-6: the recombination of '
+               'the two Tandy-6 planes into the interleaved byte array is proved, PcbV.Lemmas.VideoT6); pack/unpack round '
+               'trips, POKE-then-PEEK per mapper, Tandy-6 byte pairs cover the same pixels and their planes are independent; '
+               'counterexamples for the walk as it was (D11 and two-bank modes), the old Tandy-6 odd-address reader and the '
+               'old text mapper. Correspondence: every operation result and the touched pixel rows of real Sessions against '
+               'the compiled model. Oracle: documented memory layout of each mode applied in the pixel->address direction '
+               'to the page buffers.')
 TRUSTED_BASE = ['model PcbV.Model.VideoMem: hand transcription of framebuffer.py mappers (repaired walk) and of the '
                 'ByteMatrix slice/pack semantics as per-byte pixel groups',
                 'lean/PcbV/Gen/Modes.lean regenerated from the mapper objects built by modes.get_mode',
